@@ -13,6 +13,7 @@ import (
 	banktypes "github.com/cosmos/cosmos-sdk/x/bank/types"
 
 	"verif/harness/chain"
+	"verif/harness/drv"
 
 	coinswaptypes "mods.irisnet.org/modules/coinswap/types"
 	farmkeeper "mods.irisnet.org/modules/farm/keeper"
@@ -20,13 +21,14 @@ import (
 	"mods.irisnet.org/simapp"
 )
 
-func init() { drivers["farm"] = farmDriver }
+func main() { drv.Main("farm", farmDriver) }
 
 // Model <-> chain mapping for Farm.tla (DESIGN.md 4.2, unit scaling):
-//   LP amounts:   model k  <->  k * U base units, U = 10^18 / prec
-//   rps:          model integer = raw 18-decimal mantissa of RewardPerShare
-//   accounts:     "u1".. users, "farm" module, "collector", "feepool"
-//   denoms:       LP "lpt-1", fee "stake", rewards "rw1","rw2"
+//
+//	LP amounts:   model k  <->  k * U base units, U = 10^18 / prec
+//	rps:          model integer = raw 18-decimal mantissa of RewardPerShare
+//	accounts:     "u1".. users, "farm" module, "collector", "feepool"
+//	denoms:       LP "lpt-1", fee "stake", rewards "rw1","rw2"
 type farmEnv struct {
 	c       *chain.Chain
 	prec    int64
@@ -46,21 +48,21 @@ type farmEnv struct {
 	last    chain.M // last projected state
 }
 
-func newFarmEnv(fl *flags) *farmEnv {
+func newFarmEnv(fl *drv.Flags) *farmEnv {
 	e := &farmEnv{
-		prec:    fl.cfgInt("prec", 10),
-		users:   []string{"u1", "u2", "u3"}[:fl.cfgInt("users", 2)],
-		rdenoms: []string{"rw1", "rw2"}[:fl.cfgInt("rdenoms", 1)],
+		prec:    fl.CfgInt("prec", 10),
+		users:   []string{"u1", "u2", "u3"}[:fl.CfgInt("users", 2)],
+		rdenoms: []string{"rw1", "rw2"}[:fl.CfgInt("rdenoms", 1)],
 		lp:      "lpt-1",
 		feeDen:  "stake",
 		names:   map[string]string{},
 		off:     map[string]sdkmath.Int{},
 		donated: map[string]int64{},
-		initLP:  fl.cfgInt("initlp", 3),
-		initR:   fl.cfgInt("initr", 20),
-		fee:     fl.cfgInt("fee", 5),
-		taxNum:  fl.cfgInt("taxnum", 2),
-		taxDen:  fl.cfgInt("taxden", 5),
+		initLP:  fl.CfgInt("initlp", 3),
+		initR:   fl.CfgInt("initr", 20),
+		fee:     fl.CfgInt("fee", 5),
+		taxNum:  fl.CfgInt("taxnum", 2),
+		taxDen:  fl.CfgInt("taxden", 5),
 	}
 	e.unit = new(big.Int).Quo(new(big.Int).Exp(big.NewInt(10), big.NewInt(18), nil), big.NewInt(e.prec))
 	accts := map[string]string{"lpsrc": "2000000000000000000000stake,2000000000000000000000btc"}
@@ -406,7 +408,7 @@ func (e *farmEnv) runBlock(pending []chain.M, w *chain.TraceWriter) bool {
 }
 
 // run executes one abstract behaviour on a fresh chain.
-func farmRun(fl *flags, beh []chain.M, w *chain.TraceWriter, epilogue bool) {
+func farmRun(fl *drv.Flags, beh []chain.M, w *chain.TraceWriter, epilogue bool) {
 	e := newFarmEnv(fl)
 	init := farmEvent("Init", "", "", 0)
 	e.last = e.project(e.c.Ctx()).(chain.M)
@@ -466,13 +468,13 @@ func (e *farmEnv) epilogue(w *chain.TraceWriter) {
 	}
 }
 
-func farmDriver(mode string, fl *flags) error {
+func farmDriver(mode string, fl *drv.Flags) error {
 	w := chain.NewTraceWriter(fl.Out)
 	defer w.Close()
 	switch mode {
 	case "replay":
 		for _, beh := range chain.ReadBehaviours(fl.In) {
-			farmRun(fl, beh, w, fl.cfgInt("epilogue", 1) == 1)
+			farmRun(fl, beh, w, fl.CfgInt("epilogue", 1) == 1)
 		}
 	case "random":
 		rng := rand.New(rand.NewSource(fl.Seed))
@@ -487,11 +489,11 @@ func farmDriver(mode string, fl *flags) error {
 
 // farmRandom runs one random history: events are generated block by block
 // from the last observed state, so most are enabled, some deliberately not.
-func farmRandom(fl *flags, rng *rand.Rand, w *chain.TraceWriter) {
+func farmRandom(fl *drv.Flags, rng *rand.Rand, w *chain.TraceWriter) {
 	e := newFarmEnv(fl)
 	e.last = e.project(e.c.Ctx()).(chain.M)
 	w.Write(farmEvent("Init", "", "", 0), e.last)
-	maxPools := int(fl.cfgInt("maxpools", 2))
+	maxPools := int(fl.CfgInt("maxpools", 2))
 	blocks := fl.Len
 	for b := 0; b < blocks; b++ {
 		var pending []chain.M
